@@ -109,10 +109,33 @@ Section Checker.
         exists s0. split; [exact Hs0|]. econstructor; [exact Hin | exact Hr].
   Qed.
 
-  Lemma reaches_sound E u v : reaches eqb E u v = true -> reach (edge E) u v.
+  Lemma get_of_In (E : @dict A) k v : NoDup (keys E) -> In (k, v) E -> get eqb E k = Some v.
   Proof.
-    unfold reaches. intros H. apply memb_In in H.
-    destruct (reach_iter_sound _ _ _ _ H) as [s [[<-|[]] Hr]]. exact Hr.
+    induction E as [|[k0 v0] E IH]; cbn; intros Hn H; [contradiction|].
+    inversion Hn as [|? ? Hk Hn']; subst. destruct H as [H|H].
+    - inversion H; subst. rewrite (eqb_refl eqb eqb_eq). reflexivity.
+    - destruct (eqb k k0) eqn:Ek.
+      + apply eqb_eq in Ek. subst. exfalso. apply Hk. apply in_map_iff. exists (k0, v). split; [reflexivity | exact H].
+      + apply IH; assumption.
+  Qed.
+
+  Lemma preds_sound E S x : NoDup (keys E) -> In x (preds eqb E S) -> exists w, In w S /\ edge E x w.
+  Proof.
+    intros Hn H. unfold preds in H. apply in_map_iff in H. destruct H as [[k v] [Ek H]]. cbn in Ek. subst k.
+    apply filter_In in H. destruct H as [H Hex]. cbn in Hex. apply existsb_exists in Hex. destruct Hex as [w [Hw Hm]].
+    exists w. split; [apply memb_In; exact Hm|]. unfold edge, get_or_nil. rewrite (get_of_In E x v Hn H). exact Hw.
+  Qed.
+
+  Lemma coreach_iter_sound E n : NoDup (keys E) -> forall S x,
+    In x (coreach_iter eqb n E S) -> exists s, In s S /\ reach (edge E) x s.
+  Proof.
+    intros Hn. induction n as [|n IH]; cbn; intros S x Hx.
+    - exists x. split; [exact Hx | constructor].
+    - destruct (IH _ _ Hx) as [s [Hs Hr]].
+      apply (proj1 (dedup_In eqb eqb_eq _ _)) in Hs. apply in_app_or in Hs. destruct Hs as [Hs|Hs].
+      + exists s. split; assumption.
+      + destruct (preds_sound E S s Hn Hs) as [w [Hw He]].
+        exists w. split; [exact Hw|]. eapply reach_trans; [exact Hr|]. econstructor; [exact He | constructor].
   Qed.
 
   (* ---- rank = position of the component holding a vertex ---- *)
@@ -177,9 +200,13 @@ Section Checker.
     - intros [c [Hc [Huc Hvc]]]. specialize (Hconn c Hc).
       unfold comp_connected in Hconn. destruct c as [|r c0]; [discriminate|].
       rewrite forallb_forall in Hconn.
-      assert (Hru := Hconn u Huc). assert (Hrv := Hconn v Hvc).
-      apply andb_true_iff in Hru, Hrv. destruct Hru as [Hru Hur], Hrv as [Hrv Hvr].
-      apply reaches_sound in Hru, Hur, Hrv, Hvr.
+      assert (HnE : NoDup (keys E)) by (apply (nodupb_NoDup eqb eqb_eq); exact Hnk).
+      assert (Hboth : forall x, In x (r :: c0) -> reach (edge E) r x /\ reach (edge E) x r).
+      { intros x Hx. specialize (Hconn x Hx). apply andb_true_iff in Hconn. destruct Hconn as [Hf Hb].
+        apply memb_In in Hf, Hb. split.
+        - destruct (reach_iter_sound _ _ _ _ Hf) as [s [[<-|[]] Hr]]. exact Hr.
+        - destruct (coreach_iter_sound _ _ HnE _ _ Hb) as [s [[<-|[]] Hr]]. exact Hr. }
+      destruct (Hboth u Huc) as [Hru Hur]. destruct (Hboth v Hvc) as [Hrv Hvr].
       split; eapply reach_trans; eassumption.
     - intros [Huv Hvu].
       apply Hv in Hu. apply Hv in Hv'.
